@@ -1,8 +1,12 @@
 """C19 - solver configuration is scoped, restored and captured correctly."""
 from __future__ import annotations
 
+import contextlib
 import contextvars
+import dataclasses
+import io
 import itertools
+import re
 import threading
 
 import lib
@@ -10,28 +14,160 @@ from lib import PropertyCheck, clist, cz
 
 SETTINGS = ['solver', 'throw', 'options', 'callback']
 COQ_SET = {'solver': 'SSolver', 'throw': 'SThrow', 'options': 'SOptions', 'callback': 'SCallback'}
+# the ConfigState field behind each abstract setting of the model (Model/Config.v: cfg).  The real fields
+# are enumerated by introspection (check_fields): a field without an entry here - one whose effect on
+# `op.I(y)` this harness does not know how to observe - fails the check closed.
+FIELD = {'solver': 'solver', 'throw': 'solver_throw', 'options': 'solver_options', 'callback': 'solver_callback'}
+VALUES = {'solver': [0, 1, 2, 3], 'throw': [0, 1], 'options': [0, 1, 2, 3], 'callback': [0, 1, 2, 3]}
+
+# The probed system (exact small integers; float64): A is SPD 16x16 with eigenvalues in [2.4, 9.5]; Z is A with
+# its last row and column zeroed (singular) and B has a component in the null space of Z, so NO solver can
+# solve Z x = B (the residual keeps that component): the solve fails whatever the solver and the options.
+N = 16
+B = [3, 2, -3, -1, -2, -4, -2, 2, 2, 1, -1, 0, 0, -4, -4, -3]
+X0 = [0, 1, 0, -1, 0, 1, 0, -1, 0, 0, -1, 0, -1, 1, 1, 0]
+MARGIN = 0.1  # every stopping decision of the reference solves is at least a factor 10**MARGIN from its threshold
+VEC_TOL = 1e-9  # relative (max norm) tolerance when recognising a returned vector among the reference vectors
+
+LEGEND = (
+    "identifiers: solver 0 = the default CG(rtol=atol=1e-6, max_steps=500), 1 = CG(1e-12, 1e-12, max_steps=2), "
+    "2 = CG(1e-12, 1e-12, max_steps=3), 3 = CG(1/64, 1/64, max_steps=500); solver_throw 0/1 = False/True; "
+    "solver_options 0 = {}, 1 = {preconditioner: Jacobi}, 2 = {y0: X0}, 3 = {preconditioner: P2, y0: X0}; "
+    "solver_callback 0 = default_solver_callback, n = recording callback n; 'main' = effect of A.I(B) (16x16 SPD, see "
+    "harness/c19.py matrices()), 'sing' = effect of Z.I(B) (singular: every solve fails), as ['raised'] or "
+    "['ret', solver and options whose reference solve gives the returned vector and step count, callback that ran]"
+)
 
 _impl = {}
 
 
+def matrices():
+    import numpy as np
+
+    A = np.zeros((N, N))
+    for i in range(N):
+        A[i, i] = 4 + (i * 7 % 5)
+        if i + 1 < N:
+            A[i, i + 1] = A[i + 1, i] = -1
+        if i + 3 < N:
+            A[i, i + 3] = A[i + 3, i] = 1
+    Z = A.copy()
+    Z[-1, :] = 0
+    Z[:, -1] = 0
+    P1 = np.diag(1 / np.diag(A))  # Jacobi
+    P2 = P1.copy()
+    for i in range(N - 1):
+        P2[i, i + 1] = P2[i + 1, i] = 1 / 32
+    return A, Z, P1, P2, np.array(B, float), np.array(X0, float)
+
+
+def reference_pcg(A, b, rtol, atol, max_steps, P=None, x0=None):
+    """Textbook preconditioned conjugate gradient in NumPy with the termination rule documented by lineax.CG
+    (both |r| <= atol + rtol |b| and |last update| <= atol + rtol |x| elementwise; success iff it stops
+    before max_steps).  Returns (x, steps, successful, distance of the closest stopping decision from 1 in log10)."""
+    import numpy as np
+
+    n = len(b)
+    x = np.zeros(n) if x0 is None else np.array(x0, float)
+    r = b - A @ x
+    z = r if P is None else P @ r
+    p = z.copy()
+    gamma = z @ r
+    diff = np.full(n, np.inf)
+    step = 0
+    bscale = atol + rtol * np.abs(b)
+    margin = float('inf')
+    while True:
+        yscale = atol + rtol * np.abs(x)
+        with np.errstate(all='ignore'):
+            dec = max(np.max(np.abs(r / bscale)), np.max(np.abs(diff / yscale)))
+        if np.isfinite(dec) and dec > 0:
+            margin = min(margin, abs(float(np.log10(dec))))
+        if not (gamma > 0 and step < max_steps and dec > 1):
+            break
+        Ap = A @ p
+        alpha = gamma / (Ap @ p)
+        diff = alpha * p
+        x = x + diff
+        step += 1
+        r = r - alpha * Ap
+        z = r if P is None else P @ r
+        g2 = z @ r
+        p = z + (g2 / gamma) * p
+        gamma = g2
+    return x, step, step != max_steps, margin
+
+
+def check_fields(fc):
+    """The configuration fields, by introspection; fail closed on one this harness cannot observe."""
+    names = [f.name for f in dataclasses.fields(fc.ConfigState)]
+    unknown = sorted(set(names) - set(FIELD.values()))
+    missing = sorted(set(FIELD.values()) - set(names))
+    if unknown or missing:
+        raise lib.Tie(
+            f'ConfigState fields {names}: the harness does not know how to observe the effect of {unknown} on op.I(y)'
+            f' (fields of the model that no longer exist: {missing}); model cfg and harness FIELD must be extended'
+        )
+    return names
+
+
 def impl():
-    """Real objects for the abstract setting identifiers."""
+    """Real objects for the abstract setting identifiers, the probed operators and the reference outcomes."""
     if _impl:
         return _impl
-    import lineax as lx
-    from furax._base import config as fc
+    import jax
 
+    jax.config.update('jax_enable_x64', True)
+    import jax.numpy as jnp
+    import lineax as lx
+    import numpy as np
+    from furax._base import config as fc
+    from furax._base.dense import DenseBlockDiagonalOperator
+
+    fields = check_fields(fc)
     default = fc.ConfigState()
-    solvers = {0: default.solver}
+    A, Z, P1, P2, b, x0 = matrices()
+    struct = jax.ShapeDtypeStruct((N,), jnp.float64)
+
+    def dense(M):
+        return DenseBlockDiagonalOperator(jnp.asarray(M, dtype=jnp.float64), struct, 'ij,j->i')
+
+    # solver 0 is THE default object; 1, 2 stop at max_steps (the solve of A fails), 3 stops early by tolerance
+    solvers = {
+        0: default.solver,
+        1: lx.CG(rtol=1e-12, atol=1e-12, max_steps=2),
+        2: lx.CG(rtol=1e-12, atol=1e-12, max_steps=3),
+        3: lx.CG(rtol=1 / 64, atol=1 / 64, max_steps=500),
+    }
+    y0 = jnp.asarray(x0, dtype=jnp.float64)
+    options = {0: {}, 1: {'preconditioner': dense(P1)}, 2: {'y0': y0}, 3: {'preconditioner': dense(P2), 'y0': y0}}
+    ref_opts = {0: {}, 1: {'P': P1}, 2: {'x0': x0}, 3: {'P': P2, 'x0': x0}}
     callbacks = {0: default.solver_callback}
     for n in (1, 2, 3):
-        solvers[n] = lx.CG(rtol=10.0 ** -(6 + n), atol=1e-6, max_steps=500)
 
         def cb(solution, n=n):
-            _impl['cb_log'].append(n)
+            _impl['cb_log'].append([n, int(solution.stats['num_steps'])])
 
         callbacks[n] = cb
-    _impl.update(fc=fc, solvers=solvers, callbacks=callbacks, cb_log=[], default=default)
+    # independent reference outcome of A x = B for every (solver, options)
+    ref = {}
+    for s, sv in solvers.items():
+        for o, kw in ref_opts.items():
+            x, steps, ok, margin = reference_pcg(A, b, float(sv.rtol), float(sv.atol), int(sv.max_steps), **kw)
+            if margin < MARGIN:
+                raise RuntimeError(f'harness self-check: reference solve (solver {s}, options {o}) decides within 10**{margin:.3f} of a threshold')
+            ref[s, o] = {'x': x, 'steps': steps, 'ok': bool(ok)}
+    keys = sorted(ref)
+    for i, k1 in enumerate(keys):
+        for k2 in keys[i + 1 :]:
+            d = np.max(np.abs(ref[k1]['x'] - ref[k2]['x'])) / np.max(np.abs(ref[k1]['x']))
+            if d < 20 * VEC_TOL:
+                raise RuntimeError(f'harness self-check: reference vectors of {k1} and {k2} are not separated ({d:.2e})')
+    _impl.update(
+        fc=fc, fields=fields, solvers=solvers, callbacks=callbacks, options=options, cb_log=[], default=default,
+        opA=dense(A), opZ=dense(Z), y=jnp.asarray(b, dtype=jnp.float64), ref=ref,
+        fails=sorted(k for k in ref if not ref[k]['ok']),
+    )
     return _impl
 
 
@@ -44,55 +180,142 @@ def to_kwargs(kw: dict) -> dict:
         elif k == 'throw':
             out['solver_throw'] = bool(v)
         elif k == 'options':
-            out['solver_options'] = {} if v == 0 else {'tag': v}
+            out['solver_options'] = im['options'][v]
         elif k == 'callback':
             out['solver_callback'] = im['callbacks'][v]
+        else:
+            raise ValueError(k)
     return out
 
 
 def cfg_ids(state) -> list[int]:
+    """The identifiers of the settings held by a ConfigState (read field by field)."""
     im = impl()
     solver = next((n for n, s in im['solvers'].items() if s is state.solver), -1)
     if solver == -1:
         solver = next((n for n, s in im['solvers'].items() if s == state.solver), -1)
     callback = next((n for n, c in im['callbacks'].items() if c is state.solver_callback), -1)
-    options = state.solver_options.get('tag', 0) if isinstance(state.solver_options, dict) else -1
-    return [solver, int(bool(state.solver_throw)), options, callback]
+    options = -1
+    if isinstance(state.solver_options, dict):
+        for n, d in im['options'].items():
+            if set(d) == set(state.solver_options) and all(state.solver_options[k] is d[k] for k in d):
+                options = n
+    throw = int(state.solver_throw) if isinstance(state.solver_throw, bool) else -1
+    return [solver, throw, options, callback]
+
+
+# ---- the effect of a configuration on op.I(y) ------------------------------------------------------
+
+
+def probe(inv, jit=False):
+    """Apply a lazy inverse to B: (exception type or None, returned vector or None, callbacks that ran)."""
+    import jax
+
+    im = impl()
+    log = im['cb_log']
+    del log[:]
+    buf = io.StringIO()
+    raised, x = None, None
+    with contextlib.redirect_stdout(buf):
+        try:
+            f = jax.jit(lambda v: inv(v)) if jit else inv
+            x = f(im['y'])
+            jax.block_until_ready(x)
+        except RuntimeError as e:  # lineax reports a failed solve (throw=True) as a runtime error
+            raised = type(e).__name__
+        except Exception as e:  # anything else is not "the solve failed": reported as an odd effect
+            raised = f'unexpected {type(e).__name__}: {str(e)[:200]}'
+        jax.effects_barrier()
+    cbs = [list(r) for r in log]
+    text = buf.getvalue()
+    for m in re.finditer(r'(Converged|Did not converge) in (\d+) iterations', text):  # default_solver_callback
+        cbs.append([0, int(m.group(2))])
+    return raised, x, cbs
+
+
+def classify(x):
+    """(solver, options) whose reference solve of A x = B returns this vector, or None."""
+    import numpy as np
+
+    x = np.asarray(x, dtype=float)
+    if x.shape != (N,) or not np.all(np.isfinite(x)):
+        return None
+    for k, r in sorted(impl()['ref'].items()):
+        if np.max(np.abs(x - r['x'])) <= VEC_TOL * np.max(np.abs(r['x'])):
+            return k
+    return None
+
+
+def observe_effect(pair, jit=False):
+    """Abstract effect (Model.Config.effect) of applying the inverses of A and of Z created together."""
+    import numpy as np
+
+    im = impl()
+    out = {}
+    raised, x, cbs = probe(pair[0], jit)
+    if raised and raised.startswith('unexpected'):
+        out['main'] = ['odd', {'raised': raised, 'callbacks': cbs}]
+    elif raised:
+        # eagerly the callback line is not reached; under jit the order of error and callback is unspecified
+        out['main'] = ['raised'] if (jit or not cbs) else ['odd', {'raised': raised, 'callbacks': cbs}]
+    else:
+        k = classify(x)
+        if k is not None and len(cbs) == 1 and cbs[0][1] == im['ref'][k]['steps']:
+            out['main'] = ['ret', k[0], k[1], cbs[0][0]]
+        else:
+            out['main'] = ['odd', {'vector_of_solver_options': list(k) if k else None, 'callbacks': cbs,
+                                   'x[:3]': [float(v) for v in np.asarray(x).ravel()[:3]]}]
+    raised, x, cbs = probe(pair[1], jit)
+    if raised and raised.startswith('unexpected'):
+        out['sing'] = ['odd', {'raised': raised, 'callbacks': cbs}]
+    elif raised:
+        out['sing'] = ['raised'] if (jit or not cbs) else ['odd', {'raised': raised, 'callbacks': cbs}]
+    elif len(cbs) == 1:
+        out['sing'] = ['ret', cbs[0][0]]
+    else:
+        out['sing'] = ['odd', {'callbacks': cbs}]
+    return out
+
+
+def expected_effect(ids):
+    """What lineax does with the configuration `ids` (independent reference): the solve of A fails for the
+    (solver, options) pairs whose reference solve stops at max_steps, the solve of Z always fails; a failed
+    solve raises iff solver_throw; otherwise the vector/statistics of (solver, options) and the callback."""
+    s, t, o, c = ids
+    fails = not impl()['ref'][s, o]['ok']
+    return {
+        'main': ['raised'] if (fails and t) else ['ret', s, o, c],
+        'sing': ['raised'] if t else ['ret', c],
+    }
 
 
 class Boom(Exception):
     pass
 
 
-_spd = {}
-
-
-def make_inverse():
-    """A genuine InverseOperator (iterative solver) of a tiny SPD operator."""
-    import jax
-    import jax.numpy as jnp
+def make_inverse(fx=False):
+    """Genuine lazy inverses (iterative solver) obtained with `op.I`: of A and, for effect cases, of Z."""
     from furax._base.core import InverseOperator
-    from furax._base.dense import DenseBlockDiagonalOperator
 
-    if 'A' not in _spd:
-        _spd['A'] = DenseBlockDiagonalOperator(
-            jnp.array([[2.0, 1.0], [1.0, 3.0]], dtype=jnp.float32),
-            jax.ShapeDtypeStruct((2,), jnp.float32),
-            'ij,j->i',
-        )
-    return InverseOperator(_spd['A'])
+    im = impl()
+    invs = [im['opA'].I] + ([im['opZ'].I] if fx else [])
+    for inv in invs:
+        if type(inv) is not InverseOperator:
+            raise RuntimeError(f'op.I is a {type(inv).__name__}, not a lazy InverseOperator')
+    return invs
 
 
 class Runner:
     """Executes one thread's history with genuine `with Config(...)` statements."""
 
-    def __init__(self, events, gate=None, tid=0, log=None, really_apply=False):
+    def __init__(self, events, gate=None, tid=0, log=None, fx=False, jit=False):
         self.events = events
         self.gate = gate
         self.tid = tid
         self.obs = log if log is not None else []
         self.invs = []
-        self.really_apply = really_apply
+        self.fx = fx  # observe applications through their EFFECT (genuine solves), not only the stored field
+        self.jit = jit
 
     def record(self, o):
         self.obs.append((self.tid, o))
@@ -131,25 +354,20 @@ class Runner:
                 pos += 1
                 continue
             if e[0] == 'N':
-                self.invs.append(make_inverse())
+                self.invs.append(make_inverse(self.fx))
                 self.record(None)
             elif e[0] == 'A':
-                inv = self.invs[e[1]] if e[1] < len(self.invs) else None
-                if inv is None:
+                pair = self.invs[e[1]] if e[1] < len(self.invs) else None
+                if pair is None:
                     self.record([])
+                elif not self.fx:
+                    self.record(cfg_ids(pair[0].config))
                 else:
-                    ids = cfg_ids(inv.config)
-                    if self.really_apply:
-                        import jax
-                        import jax.numpy as jnp
-
-                        log = impl()['cb_log']
-                        del log[:]
-                        y = inv(jnp.array([1.0, 2.0], dtype=jnp.float32))
-                        jax.block_until_ready(y)
-                        jax.effects_barrier()
-                        ids = ids + [list(log)]
-                    self.record(ids)
+                    o = {'cfg': cfg_ids(pair[0].config)}
+                    if cfg_ids(pair[1].config) != o['cfg']:
+                        o['cfg_of_second_inverse'] = cfg_ids(pair[1].config)
+                    o.update(observe_effect(pair, self.jit))
+                    self.record(o)
             elif e[0] == 'R':
                 self.record(cfg_ids(fc.Config.instance()))
             elif e[0] == 'F':  # fork a context copy that runs another history
@@ -211,8 +429,9 @@ class Gate:
         self.start(child, contextvars.copy_context())
 
 
-def reference(events, start=None):
-    """Stack discipline stated independently of the Coq model: (observations, final configuration)."""
+def reference(events, start=None, fx=False):
+    """Stack discipline stated independently of the Coq model: (observations, final configuration).
+    With fx an application is observed as the captured settings plus their expected effect on op.I(y)."""
     cur = list(start or [0, 0, 0, 0])
     stack, invs, obs = [], [], []
     for e in events:
@@ -228,7 +447,12 @@ def reference(events, start=None):
             invs.append(list(cur))
             obs.append(None)
         elif e[0] == 'A':
-            obs.append(list(invs[e[1]]) if e[1] < len(invs) else [])
+            if e[1] >= len(invs):
+                obs.append([])
+            elif fx:
+                obs.append({'cfg': list(invs[e[1]]), **expected_effect(invs[e[1]])})
+            else:
+                obs.append(list(invs[e[1]]))
         elif e[0] == 'R':
             obs.append(list(cur))
         elif e[0] == 'F':
@@ -236,7 +460,109 @@ def reference(events, start=None):
     return obs, cur
 
 
-KWS = [{'throw': 1}, {'options': 2}, {'callback': 1}, {'throw': 1, 'options': 3}, {'solver': 1}, {'options': 0, 'callback': 2}]
+def applications(events):
+    """(event index, configuration captured by the applied inverse, configuration active at the application)."""
+    cur, stack, invs, out = [0, 0, 0, 0], [], [], []
+    for i, e in enumerate(events):
+        if e[0] == 'E':
+            stack.append(list(cur))
+            for k, v in e[1].items():
+                cur[SETTINGS.index(k)] = v
+        elif e[0] in ('X', 'XE'):
+            cur = stack.pop()
+        elif e[0] == 'N':
+            invs.append(list(cur))
+        elif e[0] == 'A' and e[1] < len(invs):
+            out.append((i, list(invs[e[1]]), list(cur)))
+    return out
+
+
+def hybrids(captured, active):
+    """Configurations that take a non-empty subset of the settings from the one active at application time."""
+    diff = [j for j in range(4) if captured[j] != active[j]]
+    for r in range(1, len(diff) + 1):
+        for sub in itertools.combinations(diff, r):
+            h = list(captured)
+            for j in sub:
+                h[j] = active[j]
+            yield [SETTINGS[j] for j in sub], h
+
+
+def sensitivity(cases):
+    """For every setting and every ordered pair (value at creation, value at application): the number of
+    applications in the effect cases whose expected outcome would CHANGE if that one setting were taken from
+    the configuration active at application time.  Zero anywhere = a blind spot of the generators."""
+    table = {f: {p: 0 for p in itertools.permutations(VALUES[f], 2)} for f in SETTINGS}
+    for c in cases:
+        if c['kind'] != 'single' or not c.get('fx'):
+            continue
+        for _, cap, act in applications(c['events']):
+            for j, f in enumerate(SETTINGS):
+                if cap[j] != act[j]:
+                    h = list(cap)
+                    h[j] = act[j]
+                    if expected_effect(h) != expected_effect(cap):
+                        table[f][cap[j], act[j]] += 1
+    return table
+
+
+KWS = [
+    {'throw': 1}, {'options': 2}, {'callback': 1}, {'throw': 1, 'options': 3}, {'solver': 1}, {'options': 0, 'callback': 2},
+    {'solver': 2, 'throw': 0}, {'solver': 3, 'callback': 3}, {'options': 1}, {'solver': 0, 'throw': 0, 'callback': 0},
+]  # fmt: skip
+
+
+def nz(d):
+    return {k: v for k, v in d.items() if v != 0}
+
+
+def directed_histories(f, vc, va, base):
+    """Setting f is vc when the inverse is created and va when it is applied, the other settings are `base`
+    at both times (shapes 0-2), or the other side is the defaults (shapes 3, 4)."""
+    b = nz(base)
+    return [
+        # created in one block, applied in a sibling block
+        [['E', b], ['E', {f: vc}], ['N'], ['X'], ['E', {f: va}], ['A', 0], ['X'], ['X']],
+        # created in the outer block, applied in a block nested in it
+        [['E', {**b, f: vc}], ['N'], ['E', {f: va}], ['A', 0], ['X'], ['X']],
+        # the creating block is left through an exception, the applying one as well
+        [['E', b], ['E', {f: vc}], ['N'], ['XE'], ['E', {f: va}], ['A', 0], ['XE'], ['A', 0], ['X']],
+        # created in a block, applied after every block is left (defaults active)
+        [['E', {**b, f: vc}], ['N'], ['X'], ['A', 0]],
+        # created under the defaults, applied inside a block
+        [['N'], ['E', {**b, f: va}], ['A', 0], ['X']],
+    ]
+
+
+def directed_cases(rng, quick):
+    """Every setting, every ordered pair of its values between creation and application, under several values
+    of the other settings (always including ones under which the setting decides the outcome)."""
+    cases = []
+    for f in SETTINGS:
+        others = [g for g in SETTINGS if g != f]
+        all_bases = [dict(zip(others, vs)) for vs in itertools.product(*(VALUES[g] for g in others))]
+        for vc, va in itertools.permutations(VALUES[f], 2):
+            must = [dict.fromkeys(others, 0)]
+            if f == 'throw':
+                must.append({'solver': 1, 'options': 0, 'callback': 1})
+            else:
+                must.append({**dict.fromkeys(others, 0), 'throw': 1, **({'solver': 3} if f != 'solver' else {})})
+            if quick:
+                bases = must + rng.sample([b for b in all_bases if b not in must], 3)
+            else:
+                bases = must + [b for b in all_bases if b not in must]
+            for n, base in enumerate(bases):
+                hs = directed_histories(f, vc, va, base)
+                pick = hs if (not quick or n < 2) else [hs[0], hs[1 + (n + vc + va) % 4]]
+                for h in pick:
+                    cases.append({'kind': 'single', 'events': h, 'fx': True, 'directed': f})
+    # the same through jax.jit (the configuration is a static field of the traced inverse)
+    for f in SETTINGS:
+        pairs = list(itertools.permutations(VALUES[f], 2))
+        for vc, va in pairs[:2] if quick else pairs:
+            base = {'solver': 1, 'options': 0, 'callback': 1} if f == 'throw' else dict.fromkeys([g for g in SETTINGS if g != f], 0)
+            cases.append({'kind': 'single', 'events': directed_histories(f, vc, va, base)[0], 'fx': True, 'jit': True, 'directed': f})
+    return cases
 
 
 def enum_histories(maxlen, kws):
@@ -322,17 +648,52 @@ class Check(PropertyCheck):
         "holding the previous value, reset(token) restores it, threading.Thread starts from the default, "
         "copy_context() copies",
         'setting values are abstracted to identifiers; the harness maps them to real solver/callback/options objects',
-        'correspondence harness (harness/c19.py): genuine `with Config(...)` statements, real InverseOperator objects, '
-        'real threads forced through each schedule',
+        'correspondence harness (harness/c19.py): genuine `with Config(...)` statements, real InverseOperator objects '
+        '(op.I), real threads forced through each schedule',
+        'effect of a configuration on op.I(y) (Model.Config.mv): the harness identifies the abstract effect of a genuine '
+        'solve - exception / returned vector and iteration count recognised among the 16 (solver, options) reference '
+        'solves / callback that ran - against an independent NumPy preconditioned-CG reference with the termination '
+        'rule documented by lineax.CG (all stopping decisions >= 10**0.1 away from their thresholds, reference vectors '
+        'separated by >= 20x the matching tolerance: self-checked on every run); the table of failing (solver, options) '
+        'pairs given to the model comes from that reference; that a failed lineax solve raises iff throw is lineax semantics',
     ]
+
+    def translate(self):
+        """Static tie of Model.Config.mv to InverseOperator.mv: every ConfigState field (enumerated by
+        introspection) is read from the CAPTURED configuration `self.config` and the active configuration is not
+        consulted; InverseOperator.__init__ stores Config.instance()."""
+        import ast
+        import inspect
+        import textwrap
+
+        im = impl()
+        from furax._base.core import InverseOperator
+
+        fields = set(check_fields(im['fc']))
+        tree = ast.parse(textwrap.dedent(inspect.getsource(InverseOperator.mv)))
+        names = {n.id for n in ast.walk(tree) if isinstance(n, ast.Name)}
+        bad = names & {'Config', 'ConfigState', '_config_var', 'contextvars'}
+        if bad:
+            raise lib.Tie(f'InverseOperator.mv refers to {sorted(bad)}: the model reads every setting from the captured self.config')
+        read = {
+            n.attr
+            for n in ast.walk(tree)
+            if isinstance(n, ast.Attribute) and isinstance(n.value, ast.Attribute) and n.value.attr == 'config'
+            and isinstance(n.value.value, ast.Name) and n.value.value.id == 'self'
+        }  # fmt: skip
+        if read != fields:
+            raise lib.Tie(f'InverseOperator.mv reads self.config.{sorted(read)} but ConfigState has fields {sorted(fields)}')
+        init = textwrap.dedent(inspect.getsource(InverseOperator.__init__))
+        if not re.search(r'self\.config\s*=\s*Config\.instance\(\)', init):
+            raise lib.Tie('InverseOperator.__init__ no longer stores Config.instance() in self.config')
 
     def cases(self):
         quick = self.tier == 'quick'
-        cases = []
+        cases = directed_cases(self.rng, quick)
         for h in enum_histories(5 if quick else 6, KWS[:3] if quick else KWS[:4]):
-            cases.append({'kind': 'single', 'events': h})
+            cases.append({'kind': 'single', 'events': h, 'fx': True})
         for _ in range(600 if quick else 6000):
-            cases.append({'kind': 'single', 'events': random_history(self.rng, self.rng.randrange(6, 16), KWS)})
+            cases.append({'kind': 'single', 'events': random_history(self.rng, self.rng.randrange(6, 16), KWS), 'fx': True})
         # threads: all interleavings of two short histories, plus random schedules with forks
         pool = [h for h in enum_histories(4, KWS[:2]) if any(e[0] == 'E' for e in h) and any(e[0] == 'R' for e in h)]
         self.rng.shuffle(pool)
@@ -357,15 +718,39 @@ class Check(PropertyCheck):
             sched = sched[: first_fork + 1] + rest
             cases.append({'kind': 'threads', 'histories': {'0': ha2, '1': hb, '2': hc}, 'schedule': sched, 'forks': {'2': 0}})
         self.exhaustive = False
+        # generator self-check (fail closed): every introspected configuration field, every ordered pair of its
+        # values (creation, application), is exercised where taking it from the wrong configuration shows
+        im = impl()
+        table = sensitivity(cases)
+        for name in im['fields']:
+            f = next(k for k, v in FIELD.items() if v == name)
+            holes = [p for p, n in table[f].items() if n == 0]
+            if holes:
+                raise RuntimeError(f'generator self-check: no effect case separates creation/application values {holes} of {name}')
+        self.stats['effect_sensitive_applications'] = {FIELD[f]: sum(t.values()) for f, t in table.items()}
+        self.stats['effect_sensitive_min_per_value_pair'] = {FIELD[f]: min(t.values()) for f, t in table.items()}
+        self.stats['genuine_solves'] = 2 * sum(len(applications(c['events'])) for c in cases if c.get('fx'))
+        self.stats['reference_solves'] = {f'solver{s}/options{o}': [r['steps'], r['ok']] for (s, o), r in sorted(im['ref'].items())}
         return cases
 
     def rule(self):
         return (
-            'single: every well-nested history of <=5 (quick) / <=6 (thorough) events over enter(3-4 keyword sets)/'
-            'exit/exit-by-exception/new-inverse/apply-inverse/read, plus seeded random histories of 6-15 events; '
-            'threads: all interleavings of pairs of histories of <=4 events on real threads, plus random schedules '
-            'with a forked context. Non-trivial: contains at least one enter and one read/apply.'
+            'single (every application observed through the stored field AND the effect of two genuine solves op.I(y)): '
+            'directed capture histories - every configuration field (by introspection) x every ordered pair of its values '
+            'between creation and application x 5 (quick) / all 32-64 (thorough) values of the other fields x 5 nesting '
+            'shapes (sibling block, nested block, exceptional exits, applied under defaults, created under defaults), '
+            'some through jax.jit; every well-nested history of <=5 (quick) / <=6 (thorough) events over enter(3-4 keyword '
+            'sets)/exit/exit-by-exception/new-inverse/apply-inverse/read, plus seeded random histories of 6-15 events over '
+            '10 keyword sets; threads: all interleavings of pairs of histories of <=4 events on real threads, plus random '
+            'schedules with a forked context. Non-trivial: contains at least one enter and one read/apply.'
         )
+
+    def distribution(self, cases):
+        d = {}
+        for c in cases:
+            k = c['kind'] + ('/directed-' + c['directed'] if c.get('directed') else '') + ('/jit' if c.get('jit') else '')
+            d[k] = d.get(k, 0) + 1
+        return d
 
     def nontrivial(self, case, obs):
         evs = case['events'] if case['kind'] == 'single' else sum(case['histories'].values(), [])
@@ -374,7 +759,7 @@ class Check(PropertyCheck):
     def run_impl(self, case):
         fc = impl()['fc']
         if case['kind'] == 'single':
-            r = Runner(case['events'], really_apply=case.get('apply', False))
+            r = Runner(case['events'], fx=case.get('fx', False), jit=case.get('jit', False))
 
             def go():
                 end = r.block(0)
@@ -398,9 +783,10 @@ class Check(PropertyCheck):
         return {'obs': [[t, o] for t, o in gate.log]}
 
     def model_term(self, case):
-        if case.get('apply'):
-            return None
         if case['kind'] == 'single':
+            if case.get('fx'):
+                tbl = clist(impl()['fails'], lambda so: f'({cz(so[0])}, {cz(so[1])})')
+                return f'run_single_fx {tbl} ' + clist(case['events'], coq_event)
             return 'run_single ' + clist(case['events'], coq_event)
         # global: interleave per the schedule
         pos = {int(k): 0 for k in case['histories']}
@@ -417,6 +803,20 @@ class Check(PropertyCheck):
     def decode(self, case, v):
         if case['kind'] == 'single':
             obs, final = v
+            if case.get('fx'):
+                out = []
+                for e, (cfg, (main, sing)) in zip(case['events'], obs):
+                    if cfg == []:
+                        out.append(None)
+                    elif e[0] == 'A':
+                        out.append({
+                            'cfg': cfg,
+                            'main': ['ret'] + list(main) if main else ['raised'],
+                            'sing': ['ret', sing[2]] if sing else ['raised'],
+                        })  # fmt: skip
+                    else:
+                        out.append(cfg)
+                return {'obs': out, 'final': final}
             return {'obs': [o if o != [] else None for o in obs], 'final': final}
         return {'obs': [[t, (o if o != [] else None)] for t, o in v]}
 
@@ -437,16 +837,26 @@ class Check(PropertyCheck):
         if 'error' in obs:
             return f'threads failed: {obs["error"]}'
         if case['kind'] == 'single':
-            exp, final = reference(case['events'])
+            fx = case.get('fx', False)
+            exp, final = lib.canon(reference(case['events'], fx=fx))
             got = obs['obs']
-            if case.get('apply'):
-                for e, o in zip(case['events'], got):
-                    if e[0] == 'A' and o and o[:4] != [] and o[4] != ([o[3]] if o[3] != 0 else []):
-                        return f'applying the inverse invoked callbacks {o[4]} but it captured callback {o[3]}'
-                got = [o[:4] if isinstance(o, list) and len(o) == 5 else o for o in got]
             if got != exp:
                 i = next(i for i, (a, b) in enumerate(zip(got, exp)) if a != b)
-                return f'event {i} {case["events"][i]} observed {got[i]} expected {exp[i]}'
+                msg = f'event {i} {case["events"][i]} observed {got[i]} expected {exp[i]}'
+                if fx and isinstance(got[i], dict):
+                    cap, act = next((c, a) for j, c, a in applications(case['events']) if j == i)
+                    names = [FIELD[f] for f in SETTINGS]
+                    msg += f' [{LEGEND}]'
+                    msg += f'; the inverse was created under {dict(zip(names, cap))} and applied under {dict(zip(names, act))}'
+                    if got[i].get('cfg') == cap:
+                        eff = {k: got[i].get(k) for k in ('main', 'sing')}
+                        why = [sub for sub, h in hybrids(cap, act) if lib.canon(expected_effect(h)) == eff]
+                        if why:
+                            msg += (f': op.I(y) [main: A x = y, sing: singular Z x = y] behaves as if {[FIELD[f] for f in why[0]]} '
+                                    'were taken from the configuration active at APPLICATION time')  # fmt: skip
+                        else:
+                            msg += ': the effect of op.I(y) is not that of the captured configuration (whose fields are stored intact)'
+                return msg
             if obs['final'] != [0, 0, 0, 0]:
                 return f'configuration after the history is {obs["final"]}, not the defaults'
             return None
@@ -474,18 +884,3 @@ class Check(PropertyCheck):
             if per.get(int(t), []) != exp:
                 return f'thread {t} observed {per.get(int(t))} but alone it observes {exp}'
         return None
-
-    def extra(self):
-        """The effect of the captured settings on a genuine solve (callback actually invoked)."""
-        hs = [
-            [['E', {'callback': 1}], ['N'], ['X'], ['E', {'callback': 2}], ['A', 0], ['N'], ['A', 1], ['XE'], ['A', 1], ['A', 0]],
-            [['N'], ['E', {'callback': 3, 'throw': 1}], ['A', 0], ['N'], ['X'], ['A', 1]],
-        ]
-        fails = []
-        for h in hs:
-            case = {'kind': 'single', 'events': h, 'apply': True}
-            obs = lib.canon(self.run_impl(case))
-            msg = self.oracle(case, obs)
-            if msg:
-                fails.append({'case': case, 'observation': obs, 'oracle': msg, 'key': None})
-        return {'genuine_solves_with_recording_callback': sum(sum(e[0] == 'A' for e in h) for h in hs), 'failures': fails}
